@@ -612,9 +612,11 @@ class Interp:
         # a back-edge state only continues if the loop condition in the head block lets it: evaluate the head block
         # (it must be side-effect free) and keep the states that flow back into the body
         hb = fn.blocks[head]
-        for ins in hb.instrs:
-            if ins.op in ('store', 'call', 'invoke', 'load', 'alloca'):
-                raise AnalysisBroken('step mode: the head block of the loop in %s is not a pure condition test' % fn.name)
+        if any(ins.op in ('store', 'call', 'invoke', 'load', 'alloca') for ins in hb.instrs):
+            # the loop condition is not tested in a side-effect free head block (do-while form, or a condition with effects):
+            # the states on the back edge have already passed whatever decides about another iteration
+            self.hooks.on_step_backs(fn, head, allbacks)
+            return outs
         conts = []
         for b in allbacks:
             pending = {}
